@@ -28,7 +28,7 @@ STType == [SQType EXCEPT !.k = "set"]
 InitOf(k) == IF k = "so" THEN SOInit ELSE IF k = "ch" THEN CHInit ELSE SQInit
 ApplyOf(k, s, op) == IF k = "so" THEN ApplySO(s, op) ELSE IF k = "ch" THEN ApplyCH(s, op)
                      ELSE IF k = "st" THEN ApplyST(s, op) ELSE ApplySQ(s, op)
-IsValueOf(k, s) == IF k = "so" THEN SOIsValue(s) ELSE IF k = "ch" THEN s.cur # 0 ELSE SQIsValue(s)
+IsValueOf(k, s) == IF k = "so" THEN SOIsValue(s) ELSE IF k = "ch" THEN (s.cur # 0 /\ s.val # PH) ELSE SQIsValue(s)
 LenOf(k, s) == IF k = "so" THEN Len(s.el) ELSE IF k = "ch" THEN (IF s.cur = 0 THEN 0 ELSE 1) ELSE NComp
 ElOf(k, s) == IF k = "so" THEN s.el ELSE IF k = "ch" THEN <<s.cur - 1, s.val>> ELSE SQObs(s)
 DerOf(k, s) ==
@@ -45,31 +45,35 @@ TraceInit == tid \in 1..Len(Traces) /\ l = 0 /\ st = InitOf(Traces[tid].kind) /\
 (* len() of a SEQUENCE counts the slots allocated so far, not the declared components: not compared *)
 SameObs(k, e, s) == e.isv = IsValueOf(k, s) /\ (k \in {"sq", "st"} \/ e.len = LenOf(k, s)) /\ e.el = ElOf(k, s)
 
+(* the verdict on event e when the model, in state s, answers r *)
+ClauseOf(k, e, s, r) ==
+  IF r.ok
+  THEN IF e.res = "crash" THEN "Crash"
+       ELSE IF e.res # "ok" /\ ~r.lenient THEN "WellFormedRefused"
+       ELSE IF e.res = "ok" /\ r.ret # NORET /\ e.ret # r.ret THEN "ReturnDiffers"
+       ELSE IF ~SameObs(k, e, r.st) THEN (IF r.st = s THEN "ReadChangedObject" ELSE "StateDiffers")
+       ELSE IF IsValueOf(k, r.st) /\ (e.derst # "ok" \/ e.der # DerOf(k, r.st)) THEN "EncodingDiffers"
+       ELSE IF e.res = "ok" /\ e.o = "clone" /\ ~(e.cisv = IsValueOf(k, r.st) /\ e.cel = ElOf(k, r.st)) THEN "CloneDiffers"
+       ELSE IF e.res = "ok" /\ e.o = "cloneschema" /\ ~(e.cisv = FALSE /\ e.cel = ElOf(k, InitOf(k))) THEN "CloneDiffers"
+       ELSE "ok"
+  ELSE IF e.res = "crash" THEN "Crash"
+       ELSE IF e.res = "ok" THEN "IllFormedAccepted"
+       ELSE IF ~SameObs(k, e, s) THEN "IllFormedChangedObject"
+       ELSE "ok"
+
 Step ==
   /\ l < Len(Traces[tid].ev)
   /\ l' = l + 1 /\ UNCHANGED tid
   /\ IF dead THEN UNCHANGED <<st, dead>>
      ELSE LET t == tid  j == l + 1  k == Traces[t].kind  e == Traces[t].ev[j]
-              r == ApplyOf(k, st, [o |-> e.o, i |-> e.i, v |-> e.v])
-          IN IF r.ok
-             THEN LET clause ==
-                        IF e.res = "crash" THEN "Crash"
-                        ELSE IF e.res # "ok" /\ ~r.lenient THEN "WellFormedRefused"
-                        ELSE IF e.res = "ok" /\ r.ret # NORET /\ e.ret # r.ret THEN "ReturnDiffers"
-                        ELSE IF ~SameObs(k, e, r.st) THEN (IF r.st = st THEN "ReadChangedObject" ELSE "StateDiffers")
-                        ELSE IF IsValueOf(k, r.st) /\ (e.derst # "ok" \/ e.der # DerOf(k, r.st)) THEN "EncodingDiffers"
-                        ELSE IF e.res = "ok" /\ e.o = "clone" /\ ~(e.cisv = IsValueOf(k, r.st) /\ e.cel = ElOf(k, r.st)) THEN "CloneDiffers"
-                        ELSE IF e.res = "ok" /\ e.o = "cloneschema" /\ ~(e.cisv = FALSE /\ e.cel = ElOf(k, InitOf(k))) THEN "CloneDiffers"
-                        ELSE "ok"
-                  IN /\ st' = r.st
-                     /\ IF clause = "ok" THEN dead' = FALSE ELSE Reject(t, j, clause) /\ dead' = TRUE
-             ELSE LET clause ==
-                        IF e.res = "crash" THEN "Crash"
-                        ELSE IF e.res = "ok" THEN "IllFormedAccepted"
-                        ELSE IF ~SameObs(k, e, st) THEN "IllFormedChangedObject"
-                        ELSE "ok"
-                  IN /\ st' = st
-                     /\ IF clause = "ok" THEN dead' = FALSE ELSE Reject(t, j, clause) /\ dead' = TRUE
+              op == [o |-> e.o, i |-> e.i, v |-> e.v]
+              r == ApplyOf(k, st, op)
+              clause == ClauseOf(k, e, st, r)
+              rl == IF k = "ch" THEN ApplyCHLib(st, op) ELSE r        \* the library's named deviation, if any applies here
+          IN IF clause = "ok" THEN st' = (IF r.ok THEN r.st ELSE st) /\ dead' = FALSE
+             ELSE IF rl # r /\ ClauseOf(k, e, st, rl) = "ok"
+                  THEN PrintT(<<"DEV", Traces[t].id, j, {"F18"}>>) /\ st' = rl.st /\ dead' = FALSE
+             ELSE Reject(t, j, clause) /\ dead' = TRUE /\ st' = (IF r.ok THEN r.st ELSE st)
 
 TraceSpec == TraceInit /\ [][Step]_tvars
 
